@@ -139,10 +139,15 @@ func addLeaf(t Tree, r *Route, s *Segment, h Handler) (Leaf, error) {
 				return nil, errors.Wrap(err, "add optional leaf to grandparent")
 			}
 		} else {
-			_, err = addLeaf(parent, r, parent.getSegment(), h)
+			// The parent is the root tree which is not derived from any segment, the short
+			// form of the route is "/".
+			_, err = addLeaf(parent, r, &Segment{Pos: s.Pos}, h)
 			if err != nil {
 				return nil, errors.Wrap(err, "add optional leaf to parent")
 			}
+
+			// The list of leaves has been updated by the call above.
+			leaves = t.getLeaves()
 		}
 	}
 
